@@ -7,7 +7,7 @@ from props import c01
 
 ID = "C18"
 # look-alikes of prelude names (vlib/defs.py HOSTILE) this check's derives are immune to on the unchanged tree
-HOSTILE_OK = ['From', 'Into', 'Result', 'Some', 'Ok', 'Iterator', 'Clone', 'AsRef', 'Send', 'PhantomData', 'IterGet', 'm_matches', 'm_assert', 'm_fmt']
+HOSTILE_OK = ['From', 'Into', 'Result', 'Some', 'Ok', 'Iterator', 'Clone', 'AsRef', 'Send', 'PhantomData', 'IterGet', 'm_matches', 'm_assert', 'm_fmt', 'ByValue']
 PROP_FILE = "Props/C18.v"
 RULE = ("definitions: C01-style enums WITHOUT a default variant, half with parse_err_ty + parse_err_fn (a function or a module "
         "path; attributes in either order, in one or two #[strum] attributes), half without; case-sensitive and insensitive "
